@@ -47,6 +47,34 @@ type pools struct {
 
 var curPools *pools
 
+var poolsCache []*pools
+
+func newPools(fifo bool) *pools {
+	if n := len(poolsCache); n > 0 {
+		p := poolsCache[n-1]
+		poolsCache = poolsCache[:n-1]
+		p.fifo = fifo
+		return p
+	}
+	return &pools{fifo: fifo}
+}
+
+// recycle clears the used part of a finished run's pools and keeps the
+// structure for the next run.
+func (p *pools) recycle() {
+	for i := 0; i < p.nl; i++ {
+		l := &p.lists[i]
+		l.owner = nil
+		clear(l.items[:])
+		l.n, l.head = 0, 0
+	}
+	p.nl = 0
+	p.stats = poolStats{}
+	if len(poolsCache) < 4 {
+		poolsCache = append(poolsCache, p)
+	}
+}
+
 //go:norace
 //go:noinline
 func setPools(p *pools) { curPools = p }
